@@ -2,6 +2,7 @@ import Driver.Util
 import MpcVerif.Model.Iknp
 import MpcVerif.Model.Clmul
 import MpcVerif.Model.Kos
+import MpcVerif.Model.KosSet
 
 /-!
 Line-protocol handler of property C15.
@@ -24,6 +25,14 @@ Line-protocol handler of property C15.
         prefix `!`, or when the seed is altered, ALSO by running the model
         `Kos.sendKos` on the altered messages (and the dense `Kos.residual`):
         all must agree.
+  chi   <seed2> <n>
+        the challenge coefficients of the `n + 256` rows of a call with this
+        seed (`newPrg(seed2)` read 16 bytes per row, ONE stream for payload
+        blocks and check batch) and whether they are non-zero and pairwise
+        distinct (`Kos.distinctNZ`, the hypothesis of `C15_kos_distinct_sound`)
+        -> `chi=<labels>/distinct=<bool>`.  The harness prints the coefficients
+        it RECOVERED from the real receiver (`x` of `n + 256` probe calls with
+        one choice bit set, `C15_kos_probe_recovers_chi`).
 -/
 namespace Drv.C15
 open Mpc Drv Mpc.Iknp Mpc.Clmul Mpc.Kos
@@ -168,9 +177,6 @@ def denseMasks (msgs : List Bytes) (base : Nat) (atoms : List Atom) : List Bytes
     if hits.isEmpty then mk sz fun _ => 0#8
     else mk sz fun k => hits.foldl (fun acc h => if h.1 = k then acc ^^^ BitVec.ofNat 8 h.2 else acc) 0#8
 
-/-- The label with only Go bit `j` set. -/
-def bitLabel (j : Nat) : Label := 1#128 <<< labelPos j
-
 /-- Sparse rows of the error matrix: `(global row, label)` for every bit the
 data atoms flip inside the matrix (rows of the last byte-row beyond the batch
 size are not part of it).  `sizes1/sizes2`: chunk sizes of payload / check
@@ -294,9 +300,19 @@ def handleSess (stape rtape n choices faults : String) : String :=
         head ++ "/f=" ++ (if fr.isEmpty then "-" else ";".intercalate fr)
   | _, _, _, _ => "bad-op"
 
+/-- `chi <seed2> <n>` -/
+def handleChi (seed n : String) : String :=
+  match parseLabel seed, n.toNat? with
+  | some seed2, some n =>
+    let chi := chiTable seed2 (n + 256)
+    let d := distinctNZ (fun r => chi.getD r 0#128) (n + 256)
+    s!"chi={labelsHex chi.toList}/distinct={d}"
+  | _, _ => "bad-op"
+
 /-- Line-protocol handler of property C15. -/
 def handle (args : List String) : String :=
   match args with
+  | ["chi", seed, n] => handleChi seed n
   | ["mul", a, b] => handleMul a b
   | ["clmul", a, b] => handleClmul a b
   | ["inner", a, b] => handleInner a b
